@@ -31,6 +31,8 @@ var checks = map[string]func(*vk.Run){
 	"C09": rp.RunC09,
 	"C17": rp.RunC17,
 	"C20": kms.RunC20,
+	"X-CLI": ka.RunCLI,
+	"X-EFLAGS": ka.RunEndorseFlags,
 	"C16": disc.RunC16,
 	"C19": pl.RunC19,
 	"C06": gold.RunC06,
